@@ -26,15 +26,17 @@ type M = trace.M
 // Runner drives one real shard and logs ShardTrace events.
 type Runner struct {
 	afterRepeat bool // the last request named a point twice (RepeatProbe)
-	Cfg         Config
-	R           *rand.Rand
-	G           *Gen
-	TW          *trace.Writer
-	Dir         string
-	DBFile      string
-	CM          *cache.Manager
-	Shard       *shard.Shard
-	Col         models.Collection
+	staleRisk   bool // forced schedules: in this behaviour a search created / attached the shared cache object
+	// although a batch had been committed (or was open) since its snapshot was taken (known finding C09-c)
+	Cfg    Config
+	R      *rand.Rand
+	G      *Gen
+	TW     *trace.Writer
+	Dir    string
+	DBFile string
+	CM     *cache.Manager
+	Shard  *shard.Shard
+	Col    models.Collection
 	// generation bias only (never used for verdicts)
 	believedLive map[int]bool
 	believedVals map[int]map[string]any // id -> property -> last value written
@@ -262,7 +264,7 @@ func (r *Runner) Insert(b []GenPoint) error {
 		r.remember(b, false)
 	}
 	r.Batches++
-	r.TW.Emit("Insert", M{"pts": absBatch(b), "ok": b2i(err == nil), "P": r.proj(), "err": errStr(err)})
+	r.TW.Emit("Insert", M{"pts": absBatch(b), "ok": b2i(err == nil), "P": r.proj(), "err": errStr(err), "risk": b2i(r.staleRisk)})
 	return err
 }
 
@@ -276,7 +278,7 @@ func (r *Runner) Update(b []GenPoint) error {
 		r.remember(b, true)
 	}
 	r.Batches++
-	r.TW.Emit("Update", M{"pts": absBatch(b), "ok": b2i(err == nil), "updated": upd, "P": r.proj(), "err": errStr(err)})
+	r.TW.Emit("Update", M{"pts": absBatch(b), "ok": b2i(err == nil), "updated": upd, "P": r.proj(), "err": errStr(err), "risk": b2i(r.staleRisk)})
 	return err
 }
 
@@ -294,7 +296,7 @@ func (r *Runner) Delete(ids []int) error {
 		}
 	}
 	r.Batches++
-	r.TW.Emit("Delete", M{"ids": ids, "ok": b2i(err == nil), "deleted": d, "P": r.proj(), "err": errStr(err)})
+	r.TW.Emit("Delete", M{"ids": ids, "ok": b2i(err == nil), "deleted": d, "P": r.proj(), "err": errStr(err), "risk": b2i(r.staleRisk)})
 	return err
 }
 
